@@ -10,8 +10,10 @@ CONSTANTS
   PC = {"a", "SP", "R", "%", "+", "HI"}
   MaxLen = 2
   MaxItems = 2
+  AllItems = 1
   BodyItems = 1
   Family = "mc"
+  Cross = "some"
 INVARIANT RoundTrip
 INVARIANT NothingLeft
 CHECK_DEADLOCK FALSE
